@@ -243,7 +243,7 @@ mtext("C05",
       "DESIGN.md 4.C05")
 
 check("C06", "exploration",
-      [dict(world="memc", mode=6, variants={"rel": 0.9, "asan": 0.1}, quick=330000, thorough=33000000)],
+      [dict(world="memc", mode=6, variants={"rel": 0.89, "asan": 0.09, "tsan": 0.02}, quick=330000, thorough=33000000)],
       "one evaluation = one seeded schedule of one seeded scenario (2-4 tasks, 1-6 operations each on their own shared/weak pointer objects, 1-2 allocations, seeded initial reference configuration, "
       "one of three scheduling strategies: uniform random / PCT-style priorities with 0-3 change points / sticky with a seeded switch probability); every atomic operation, sched_yield, library malloc/free and clear-callback entry is a scheduling point; "
       "distinct = distinct plan hash (scenario + scheduler seed); non-trivial = at least one preemption of a task in the middle of a library operation; distinct interleavings are measured separately as distinct (task, source line) sequences",
@@ -252,7 +252,9 @@ check("C06", "exploration",
       required_probes=["preempt", "sched_yield_executed", "c06_lock_success", "c06_lock_fail", "c06_lock_after_death", "c06_share", "c06_touch_owned", "c06_lin_checked", "c06_starts_with_one_owner"],
       assumptions=["sequentially consistent interleavings of the library's atomic steps only (all atomics in memory.c are seq_cst); weaker hardware orders are not simulated",
                    "seeded schedule search, not exhaustive enumeration with visited-state pruning: the 'every interleaving' quantifier is sampled",
-                   "atomicity of what unique() observes against concurrent resets is not demanded (the property does not promise it)"])
+                   "atomicity of what unique() observes against concurrent resets is not demanded (the property does not promise it)",
+                   "data-race clause: the same seeded schedules run in a build where only src/memory.c and the payload accessors are compiled with -fsanitize=thread and the fibers are registered through TSan's fiber API (no-sync switches), "
+                   "so TSan's happens-before analysis sees exactly the synchronisation the library performs; any report halts the run and is a violation"])
 mtext("C06",
       "The property this technique was made for. Cooperative fibers stand in for threads; a seeded scheduler decides every interleaving at the granularity of the library's own atomic operations (shadowed <stdatomic.h>, no source change), plus sched_yield, library malloc/free and the clear callback. "
       "Oracle over the global event sequence: conservation (clear once, payload freed once and after clear, bookkeeping freed once and last), no atomic access to a freed block (checked at the access), never-earlier (no clear while a shared pointer that has returned from share/lock and not yet entered reset exists), "
